@@ -4,7 +4,7 @@
 From AV Require Import Base.Util Model.Murmur Model.MurmurGen Model.Partitioner Proofs.MurmurGenEq Proofs.MurmurJava Proofs.MurmurGenJava.
 
 (* the generated function, with the default seed found in the source, is the hand-written model *)
-Theorem C18_generated_is_model : forall data, gen_pure_murmur2 data gen_seed = pure_murmur2 data.
+Theorem C18_generated_is_model : forall data, bytes_ok data = true -> gen_pure_murmur2 data gen_seed = pure_murmur2 data.
 Proof. exact gen_eq_model. Qed.
 Print Assumptions C18_generated_is_model.
 
